@@ -77,6 +77,7 @@ def to_tva(number):
     """Return a TVA that prepends the two extra check digits to the SIREN."""
     # note that this always returns numeric check digits
     # it is unclean when the alphabetic ones are used
+    number = number.strip()
     return '%02d%s%s' % (
         int(compact(number) + '12') % 97,
         ' ' if ' ' in number else '',
